@@ -75,12 +75,22 @@ type world struct {
 	running   bool
 	restarts  int
 
-	issuedAddrs         []issued
-	byAddr              map[string]int
-	foreignN            uint64
-	acctKeys            map[string]*hdkeychain.ExtendedKey // scope/account/branch -> branch xpub-capable key
-	violated            bool
-	pendingFail         map[string]int
+	issuedAddrs []issued
+	byAddr      map[string]int
+	foreignN    uint64
+	acctKeys    map[string]*hdkeychain.ExtendedKey // scope/account/branch -> branch xpub-capable key
+	violated    bool
+	pendingFail map[string]int
+	// C16
+	paid                []paidRec
+	pendingPaid         []paidRec
+	paidHighestMined    map[string]int64
+	firstPayHeight      int32
+	firstPayTime        time.Time
+	spends              []*wire.MsgTx
+	scanMin             int32
+	unlockAtOpen        bool
+	c16Checked          bool
 	byScript            map[string]int // pkScript -> index into issuedAddrs
 	lockedOps           map[wire.OutPoint]bool
 	leases              map[wire.OutPoint]time.Time
@@ -109,7 +119,8 @@ func (x *world) fail(sig, format string, a ...any) {
 // newWorld creates node, database and wallet and attaches the wallet.
 func newWorld(env *core.Env, p *core.Plan) (*world, error) {
 	x := &world{env: env, p: p, prop: p.Prop, byAddr: map[string]int{}, acctKeys: map[string]*hdkeychain.ExtendedKey{},
-		byScript: map[string]int{}, lockedOps: map[wire.OutPoint]bool{}, leases: map[wire.OutPoint]time.Time{}}
+		byScript: map[string]int{}, lockedOps: map[wire.OutPoint]bool{}, leases: map[wire.OutPoint]time.Time{},
+		paidHighestMined: map[string]int64{}, firstPayHeight: -1, scanMin: -1}
 	r := core.NewRand(core.Mix(p.Seed, 0x77a11e7))
 	txauthor.VerifSeedCPRNG(int64(core.Mix(p.Seed, 0xc9) >> 1)) // overlay probe: change position is a function of the plan
 	simrt.SetMapSeed(core.Mix(p.Seed, 0x3a9) | 1)               // map iteration order inside btcwallet is a function of the plan
@@ -135,19 +146,30 @@ func newWorld(env *core.Env, p *core.Plan) (*world, error) {
 	for i := 0; i < pre; i++ {
 		x.node.Mine(simchain.MineOpts{CoinbaseValue: 50e8, Dt: 10 * time.Minute})
 	}
-	x.dbPath = filepath.Join(env.Dir, "wallet.db")
-	inner, err := walletdb.Create("bdb", x.dbPath, true, 10*time.Second, false)
-	if err != nil {
-		return nil, err
+	if p.C("deferred_create", 0) == 1 {
+		return x, nil // the wallet is restored later by a "createwallet" operation
 	}
-	x.db = faultdb.Wrap(inner)
-	if err := wallet.Create(x.db, x.pubPass, x.privPass, root, x.params, x.birthday); err != nil {
-		return nil, fmt.Errorf("wallet.Create: %w", err)
+	if err := x.createDB(); err != nil {
+		return nil, err
 	}
 	if err := x.open(); err != nil {
 		return nil, err
 	}
 	return x, nil
+}
+
+// createDB creates the database file and the wallet in it.
+func (x *world) createDB() error {
+	x.dbPath = filepath.Join(x.env.Dir, "wallet.db")
+	inner, err := walletdb.Create("bdb", x.dbPath, true, 10*time.Second, false)
+	if err != nil {
+		return err
+	}
+	x.db = faultdb.Wrap(inner)
+	if err := wallet.Create(x.db, x.pubPass, x.privPass, x.root, x.params, x.birthday); err != nil {
+		return fmt.Errorf("wallet.Create: %w", err)
+	}
+	return nil
 }
 
 // open opens the wallet on x.db and attaches a fresh client.
@@ -159,6 +181,12 @@ func (x *world) open() error {
 	}
 	x.w = w
 	w.Start()
+	if x.unlockAtOpen {
+		if err := w.Unlock(x.privPass, nil); err != nil {
+			return fmt.Errorf("unlock: %w", err)
+		}
+	}
+	x.noteClient()
 	x.client = simchain.NewClient(x.node, x.birthday, int(x.p.C("queue_buf", 20)))
 	for _, k := range core.SortedKeys(x.pendingFail) {
 		x.client.FailNext[k] = x.pendingFail[k]
@@ -182,6 +210,16 @@ func (x *world) open() error {
 	w.SynchronizeRPC(x.client)
 	x.running = true
 	return nil
+}
+
+// noteClient folds what the outgoing client observed into the world.
+func (x *world) noteClient() {
+	if x.client == nil {
+		return
+	}
+	if m := x.client.FilterBlocksMin; m >= 0 && (x.scanMin < 0 || m < x.scanMin) {
+		x.scanMin = m
+	}
 }
 
 // stop shuts the wallet down and closes the database.
